@@ -307,7 +307,38 @@ def tip_table(tier="quick"):
                              oxt=True, q=[1, 0.3, 0.1, 0.2], ter=True,
                              contact=dict(target=0, dir=[0.1 * mi, 0.05 * gi, 0.02], gap=gap, tip="dropped"))
                     out.append(dict(desc=dict(chains=[a, b], waters=[]), opts=list(mode)))
+                    if "--nodebump" in mode and gi == 0:
+                        # the same on the titration route (hydrogens stripped/rebuilt, second debump pass)
+                        import copy
+
+                        out.append(dict(desc=copy.deepcopy(out[-1]["desc"]), opts=list(mode), tit=dict(ph=7.0, pka=[])))
     return out
+
+
+def draw_titration(draw, desc, p=3):
+    """Optional titration route: harness pKa source (PROPKA's row format) with drawn pKa values."""
+    if draw(st.integers(0, p - 1)) != 0:
+        return None
+    return dict(ph=draw(st.sampled_from([1.5, 4.0, 7.0, 12.5])),
+                pka=[[ci, i, draw(st.integers(0, 14000)) / 1000.0] for ci, ch in enumerate(desc["chains"]) if "window" not in ch
+                     for i, rn in enumerate(ch["seq"]) if rn in ("ASP", "GLU", "HIS", "CYS", "TYR", "LYS", "ARG")])  # fmt: skip
+
+
+def apply_titration(desc, tit, opts):
+    """Install the harness pKa source for this run; returns the extra options."""
+    if not tit:
+        return []
+    from .props import c06
+
+    c06.install_fake_propka()
+    c06.PKA.clear()
+    c06.TERM_ROWS.clear()
+    normalise(desc, opts)
+    for ci, i, v in tit["pka"]:
+        ch = desc["chains"][ci]
+        if i < len(ch["seq"]):
+            c06.PKA[(ch["id"], ch.get("nums", [ch["start"] + k for k in range(len(ch["seq"]))])[i])] = v
+    return ["--titration-state-method=propka", f"--with-ph={tit['ph']}"]
 
 
 def neutral_opts(draw, ff, opts):
